@@ -17,6 +17,7 @@ type c08Case struct {
 	Strict     bool     `json:"strict"`
 	Keys       []string `json:"keys"`        // plain signing keys
 	ScopedKeys []string `json:"scoped_keys"` // account only
+	ByValue    bool     `json:"scopes_by_value,omitempty"` // scoped signers registered as UserScope values, not pointers
 	RoundTrip  bool     `json:"round_trip"`  // entity encoded and decoded first
 	Nil        bool     `json:"nil"`
 	Kind       string   `json:"kind"`
@@ -97,7 +98,11 @@ func evalC08(c *Ctx, k c08Case) {
 			us := jwt.NewUserScope()
 			us.Key = sk
 			us.Role = "r"
-			ac.SigningKeys.AddScopedSigner(us)
+			if k.ByValue {
+				ac.SigningKeys.AddScopedSigner(*us) // UserScope has value receivers: the value is a Scope too
+			} else {
+				ac.SigningKeys.AddScopedSigner(us)
+			}
 		}
 		if k.RoundTrip {
 			tok, err := ac.Encode(okp)
@@ -159,7 +164,7 @@ func evalC08(c *Ctx, k c08Case) {
 }
 
 func runC08(c *Ctx) {
-	c.Res.Rule = "complete cross product: entity {operator, account} x signing-key set {empty, listed, listed+identity} (account: plain and scoped) x strict flag x claim {nil, 7 kinds} x issuer {identity, listed plain key, listed scoped key, unlisted key of same role, key of another entity} x subject {self, other} x issuer-account {empty, this, other} x before/after encode-decode of the entity; oracle = the property's sentence; every case also goes through the Lean model. non-trivial = distinct cases."
+	c.Res.Rule = "complete cross product: entity {operator, account} x signing-key set {empty, listed, listed+identity} (account: plain and scoped, scopes registered by pointer and by value) x strict flag x claim {nil, 7 kinds} x issuer {identity, listed plain key, listed scoped key, unlisted key of same role, key of another entity} x subject {self, other} x issuer-account {empty, this, other} x before/after encode-decode of the entity; oracle = the property's sentence; every case also goes through the Lean model. non-trivial = distinct cases."
 	okp, akp := kpN('O', 0), kpN('A', 0)
 	o, a := pubOf(okp), pubOf(akp)
 	osk, osk2 := pubOf(kpN('O', 1)), pubOf(kpN('O', 2))
@@ -184,13 +189,18 @@ func runC08(c *Ctx) {
 		// account
 		type ks struct{ plain, scoped []string }
 		for _, k := range []ks{{nil, nil}, {[]string{ask}, nil}, {nil, []string{ascoped}}, {[]string{ask}, []string{ascoped}}, {[]string{ask, a}, []string{ascoped}}} {
-			evalC08(c, c08Case{Entity: "account", Keys: k.plain, ScopedKeys: k.scoped, RoundTrip: rt, Nil: true})
-			for _, kind := range kinds {
-				for _, iss := range []string{a, ask, ascoped, aother, a2, o} {
-					for _, sub := range []string{a, pubOf(kpN('U', 0))} {
-						for _, ia := range []string{"", a, a2} {
-							evalC08(c, c08Case{Entity: "account", Keys: k.plain, ScopedKeys: k.scoped, RoundTrip: rt, Kind: kind, Issuer: iss, Subject: sub, IssuerAcct: ia})
-							n++
+			for _, byValue := range []bool{false, true} {
+				if byValue && len(k.scoped) == 0 {
+					continue
+				}
+				evalC08(c, c08Case{Entity: "account", Keys: k.plain, ScopedKeys: k.scoped, ByValue: byValue, RoundTrip: rt, Nil: true})
+				for _, kind := range kinds {
+					for _, iss := range []string{a, ask, ascoped, aother, a2, o} {
+						for _, sub := range []string{a, pubOf(kpN('U', 0))} {
+							for _, ia := range []string{"", a, a2} {
+								evalC08(c, c08Case{Entity: "account", Keys: k.plain, ScopedKeys: k.scoped, ByValue: byValue, RoundTrip: rt, Kind: kind, Issuer: iss, Subject: sub, IssuerAcct: ia})
+								n++
+							}
 						}
 					}
 				}
